@@ -106,9 +106,9 @@ pub fn plans(ctx: &WorkerCtx) -> Vec<Plan> {
     let base = Opts { n32: 2, n64: 2, ..Default::default() };
     let mut v = vec![];
     let af = |pairs: bool| -> Box<dyn Fn(&Cfg) -> Alphabet + Sync> { Box::new(move |c: &Cfg| super::c05::alphabet(c.machines.len(), vec![0], pairs)) };
-    v.push(Plan { name: "one signaller".into(), cfgs: fam::singles(&sig, &fr), alpha_for: af(true), opts: Opts { depth: if q { 3 } else { 4 }, ..base.clone() } });
-    v.push(Plan { name: "all ordered pairs of signal probes, singles + pairs + long batches".into(), cfgs: fam::all_pairs(&sig, &sig, &fr), alpha_for: af(true), opts: Opts { depth: if q { 2 } else { 3 }, ..base.clone() } });
-    v.push(Plan { name: "all ordered pairs of signal probes, singles, deeper".into(), cfgs: fam::all_pairs(&sig, &sig, &fr), alpha_for: af(false), opts: Opts { depth: if q { 4 } else { 6 }, ..base.clone() } });
+    v.push(Plan { name: "one signaller".into(), cfgs: fam::singles(&sig, &fr), alpha_for: af(true), opts: Opts { depth: if q { 3 } else { 4 }, ..base.clone() }, walk: None });
+    v.push(Plan { name: "all ordered pairs of signal probes, singles + pairs + long batches".into(), cfgs: fam::all_pairs(&sig, &sig, &fr), alpha_for: af(true), opts: Opts { depth: if q { 2 } else { 3 }, ..base.clone() }, walk: None });
+    v.push(Plan { name: "all ordered pairs of signal probes, singles, deeper".into(), cfgs: fam::all_pairs(&sig, &sig, &fr), alpha_for: af(false), opts: Opts { depth: if q { 4 } else { 6 }, ..base.clone() }, walk: None });
     let mut three = vec![];
     for (na, a) in &sig {
         for (nb, b) in &sig {
@@ -117,12 +117,14 @@ pub fn plans(ctx: &WorkerCtx) -> Vec<Plan> {
             }
         }
     }
-    v.push(Plan { name: "all ordered triples of signal probes".into(), cfgs: three, alpha_for: af(false), opts: Opts { depth: if q { 3 } else { 5 }, full_positions: 6, ..base.clone() } });
+    v.push(Plan { name: "all ordered triples of signal probes".into(), cfgs: three, alpha_for: af(false), opts: Opts { depth: if q { 3 } else { 5 }, full_positions: 6, ..base.clone() }, walk: None });
     let g2: Vec<_> = fam::g2(if q { 1499 } else { 149 }, 4).into_iter().filter(|(_, m)| format!("{:?}", m).contains("4294967294")).collect();
     let mut lib = g2.clone();
     lib.extend(sig.iter().cloned());
-    v.push(Plan { name: "G2 machines with signal transitions (on LimitReached, CounterZero, Signal), pairs".into(), cfgs: fam::pairs_strided(&lib, 31, 7, &[(0.0, 0.0), (0.5, 0.5)]), alpha_for: af(false), opts: Opts { depth: if q { 3 } else { 4 }, ..base.clone() } });
-    v.push(Plan { name: "G2 machines with signal transitions, triples".into(), cfgs: fam::triples_strided(&lib, &[(0.0, 0.0)]), alpha_for: af(false), opts: Opts { depth: if q { 2 } else { 3 }, full_positions: 4, ..base.clone() } });
+    v.push(Plan { name: "G2 machines with signal transitions (on LimitReached, CounterZero, Signal), pairs".into(), cfgs: fam::pairs_strided(&lib, 31, 7, &[(0.0, 0.0), (0.5, 0.5)]), alpha_for: af(false), opts: Opts { depth: if q { 3 } else { 4 }, ..base.clone() }, walk: None });
+    v.push(Plan { name: "G2 machines with signal transitions, triples".into(), cfgs: fam::triples_strided(&lib, &[(0.0, 0.0)]), alpha_for: af(false), opts: Opts { depth: if q { 2 } else { 3 }, full_positions: 4, ..base.clone() }, walk: None });
+    let corp = fam::corpus(ctx.seed.wrapping_add(51), if q { 150 } else { 1500 });
+    v.push(Plan { name: "corpus of generated 3-6 state machines (sampled), singles and pairs: BFS plus long random walks".into(), cfgs: { let mut c = fam::singles(&corp, &[(0.5, 0.5)]); c.extend(fam::pairs_strided(&corp, 31, 7, &[(0.0, 0.0), (0.5, 0.5)])); c }, alpha_for: Box::new(|c: &Cfg| super::c05::alphabet(c.machines.len(), vec![0], false)), opts: Opts { depth: if q { 1 } else { 2 }, ..base.clone() }, walk: Some((if q { 3 } else { 6 }, 300)) });
     v
 }
 
